@@ -377,8 +377,17 @@ def build(tier, rng):
         "identify-own-format",
         "libpass PasswordHasher.identify",
         "each of the six libpass hashers x hashes of all six formats (libpass-made and passlib-made, incl. implicit-rounds sha-crypt, "
-        "$2a$/$2b$/$2y$ bcrypt, generated salts; str and bytes): identify() is True exactly for the hasher's own format",
+        "$2a$/$2b$/$2y$ bcrypt, generated salts; str and bytes) + 8 neighbouring passlib formats (pbkdf2_sha1, ldap_/django_ pbkdf2, md5/sha1-crypt, ...): identify() is True exactly for the hasher's own format",
     )
+    neighbours = []
+    for nname, mk in (("pbkdf2_sha1", lambda: PH.pbkdf2_sha1.using(rounds=2).hash("pw")), ("ldap_pbkdf2_sha256", lambda: PH.ldap_pbkdf2_sha256.using(rounds=2).hash("pw")),
+                      ("django_pbkdf2_sha256", lambda: PH.django_pbkdf2_sha256.using(rounds=2).hash("pw")), ("md5_crypt", lambda: PH.md5_crypt.hash("pw")),
+                      ("sha1_crypt", lambda: PH.sha1_crypt.using(rounds=2).hash("pw")), ("cta_pbkdf2_sha1", lambda: PH.cta_pbkdf2_sha1.using(rounds=2).hash("pw")),
+                      ("django_bcrypt_sha256", lambda: PH.django_bcrypt_sha256.using(rounds=4).hash("pw")), ("grub_pbkdf2_sha512", lambda: PH.grub_pbkdf2_sha512.using(rounds=2).hash("pw"))):
+        try:
+            neighbours.append((nname, mk()))
+        except Exception as err:  # noqa: BLE001
+            skipped.append(f"neighbour format {nname}: {type(err).__name__}")
     default_cost = {"sha256-crypt": 1000, "sha512-crypt": 1000, "pbkdf2-sha256": 2, "pbkdf2-sha512": 2, "bcrypt": (4, "2b"), "bcrypt-sha256": (4, "2b")}
     for fmt in formats:
         hasher = lib_for(fmt, default_cost[fmt])
@@ -390,6 +399,14 @@ def build(tier, rng):
                     want = fmt == hfmt
                     key = f"identify-own:{fmt}" if want else f"identify-foreign:{fmt}:{hfmt}"
                     g.check(o == ("ok", want), key, "identify() is not True exactly for the own format", {"hasher": fmt, "hash": hs, "hash_format": hfmt, "made_by": origin, "as_bytes": isinstance(form, bytes), "outcome": repr(o)})
+        # neighbouring passlib formats that are NOT among the six (their names are prefixes / relatives of the shared ones)
+        for nname, nh in neighbours:
+            for form in (nh, nh.encode()):
+                o = outcome(hasher.identify, form)
+                g.case((fmt, "neighbour", nname, isinstance(form, bytes)))
+                g.check(o == ("ok", False), f"identify-foreign:{fmt}:{nname}", "identify() claims a hash of a neighbouring format", {"hasher": fmt, "hash": nh, "hash_format": nname, "outcome": repr(o)})
+                o = outcome(hasher.needs_update, form)
+                g.check(o == ("ok", True), f"needs-update-foreign:{fmt}:{nname}", "needs_update() is not True for a hash of a neighbouring format", {"hasher": fmt, "hash": nh, "hash_format": nname, "outcome": repr(o)})
         # the extra passlib variants verify as well
         for origin, pw, hs, cost in extra[fmt]:
             v = outcome(hasher.verify, hs, pw)
